@@ -54,6 +54,14 @@ FIXED = [
   "a CAN-ASC comment '// BusMapping: CAN 1 = <name of ~65 500 bytes>' overflowed the u16 length of the generated GET_LOG_INFO message (attempt to add with overflow)", "replays/examples/C03-asc-long-bus-name.json"),
  ("KF-C03-11", "C03", "C03-asc-data-non-ascii", "fix: asc data with non ascii chars doesn't panic",
   "a CAN-ASC frame line whose data field contains multi-byte UTF-8 characters ('... Rx   d 8 \u20acA  \u00e90...') was sliced at a byte offset inside a character (end byte index is not a char boundary), CAN and CANFD branch", "replays/examples/C03-asc-data-non-ascii.json"),
+ ("KF-C03-12", "C03", "C03-short-non-ascii-tags", "fix: apid abbreviation for short non ascii tags",
+  "two different short (<= 4 bytes) non-ASCII tags in one logcat/generic-log file ('\u00e9\u00e9' after another non-ASCII tag that already took the fallback apid NoAs) made utils::get_4digit_str slice inside a character (end byte index 3 is not a char boundary); the panic happens while the global tag map is write-locked, so every later file of the process fails too", "replays/examples/C03-short-non-ascii-tags.json"),
+ ("KF-C03-13", "C03", "C03-asc-i64-sum-overflow", "fix: asc timestamp close to the i64 limit",
+  "a CAN-ASC timestamp of 9223372036854.999999 s overflowed 'timestamp_secs_us + timestamp_fraction_us' (i64) in parse_signed_time_str", "replays/examples/C03-asc-i64-sum-overflow.json"),
+ ("KF-C03-14", "C03", "C03-logcat-unicode-digit", "fix: logcat threadtime with non ascii digits",
+  "a logcat threadtime line whose 18-byte time stamp contains a non-ASCII digit (the regex \\d is Unicode aware, e.g. '01-1\u06f3 10:11:12.11  100  200 I MyTag   : x') was sliced at fixed byte offsets inside a character in parse_threadtime_str/parse_mmdd_str", "replays/examples/C03-logcat-unicode-digit.json"),
+ ("KF-C03-15", "C03", "C03-asc-64k-data", "fix: asc frame with a data length close to 64k",
+  "a CAN-ASC frame line announcing and carrying 65 500+ data bytes overflowed the u16 length of the generated message ('len_wo_payload + payload.len() as u16')", "replays/examples/C03-asc-64k-data.json"),
  ("KF-C18-1", "C18", "C18-payload_from_args-empty-string-or-raw", "fix: payload_from_args writes the length",
   "utils::payload_from_args wrote no u16 length prefix for an empty string/raw argument, so the encoded payload did not decode to the same arguments (a single empty raw value: 4 bytes written, 0 arguments decoded)",
   "replays/examples/C18-payload_from_args-empty-raw.json"),
